@@ -169,6 +169,20 @@ theorem pcm_decode_scaled_eq_model (codes : List Int) (bitdepth : Nat) :
   simp only [Gen.pcm_decode_scaled, scale_eq]
   try (apply List.map_congr_left; intro c _; grind)
 
+/-- the encode tie stated against the model's `Pcm.encode` itself (not a restated formula): the model's codes are the
+translated `scaledSamples`, rounded to binary64 and truncated (`astype(int)`). -/
+theorem pcm_encode_model (samples : List Rat) (bitdepth : Nat) :
+    samples.map (Pcm.encode bitdepth) =
+      (Gen.pcm_encode_scaled samples bitdepth).map (fun y => Pcm.truncZ (Ieee.rn53 y)) := by
+  rw [pcm_encode_scaled_eq_model, List.map_map]
+  rfl
+
+/-- the decode tie stated against the model's `Pcm.decode` itself: the translated quotient, rounded to binary64. -/
+theorem pcm_decode_model (codes : List Int) (bitdepth : Nat) :
+    codes.map (Pcm.decode bitdepth) = (Gen.pcm_decode_scaled codes bitdepth).map Ieee.rn53 := by
+  rw [pcm_decode_scaled_eq_model, List.map_map]
+  rfl
+
 /-! ### C04 — `PeakMonitor.has_overloaded` -/
 
 theorem has_overloaded_eq_model (peak : List Rat) :
